@@ -338,6 +338,9 @@ var errModelSyntax = errors.New("strconv: parsing: invalid syntax (model)")
 // digits); for every other input the result is an arbitrary (value, error)
 // pair, i.e. an over-approximation of the real parser.
 func M_strconv_ParseFloat(s string, bitSize int) (float64, error) {
+	if len(s) == 0 {
+		return 0, errModelSyntax
+	}
 	if len(s) > 0 && len(s) <= 9 {
 		digits := true
 		v := 0
